@@ -495,6 +495,9 @@ type c17Owned struct {
 	build func(w *World, std *Std, who string, id uint64) sdk.Msg
 	// wait: time to let pass (both worlds) before the owner's own message
 	wait time.Duration
+	// batch (messages that name several objects): the message about the objects `ids`, in that order, with `who` in the owner field.
+	// The non-owner then also sends batches that mix an object of its own with the owner's
+	batch func(w *World, std *Std, who string, ids []uint64) sdk.Msg
 }
 
 func c17Deliver(w *World, signer *Acct, msg sdk.Msg) string {
@@ -597,6 +600,9 @@ var c17OwnedTable = []c17Owned{
 	{module: "tradeshield", msg: "MsgCancelSpotOrders", field: "Creator", create: c17SpotOrder,
 		build: func(w *World, std *Std, who string, id uint64) sdk.Msg {
 			return &tstypes.MsgCancelSpotOrders{Creator: who, SpotOrderIds: []uint64{id}}
+		},
+		batch: func(w *World, std *Std, who string, ids []uint64) sdk.Msg {
+			return &tstypes.MsgCancelSpotOrders{Creator: who, SpotOrderIds: ids}
 		}},
 	// the same three messages about an order whose escrow account is empty
 	{module: "tradeshield", msg: "MsgUpdateSpotOrder", field: "OwnerAddress", create: c17SpotOrderZero,
@@ -622,6 +628,9 @@ var c17OwnedTable = []c17Owned{
 	{module: "tradeshield", msg: "MsgCancelPerpetualOrders", field: "OwnerAddress", create: c17PerpOrder,
 		build: func(w *World, std *Std, who string, id uint64) sdk.Msg {
 			return &tstypes.MsgCancelPerpetualOrders{OwnerAddress: who, OrderIds: []uint64{id}}
+		},
+		batch: func(w *World, std *Std, who string, ids []uint64) sdk.Msg {
+			return &tstypes.MsgCancelPerpetualOrders{OwnerAddress: who, OrderIds: ids}
 		}},
 	{module: "leveragelp", msg: "MsgClose", field: "Creator", create: c17LpPosition, wait: 2 * time.Hour,
 		build: func(w *World, std *Std, who string, id uint64) sdk.Msg {
@@ -640,6 +649,9 @@ var c17OwnedTable = []c17Owned{
 	{module: "leveragelp", msg: "MsgClaimRewards", field: "Sender", create: c17LpPosition,
 		build: func(w *World, std *Std, who string, id uint64) sdk.Msg {
 			return &lptypes.MsgClaimRewards{Sender: who, Ids: []uint64{id}}
+		},
+		batch: func(w *World, std *Std, who string, ids []uint64) sdk.Msg {
+			return &lptypes.MsgClaimRewards{Sender: who, Ids: ids}
 		}},
 	{module: "perpetual", msg: "MsgClose", field: "Creator", create: c17PerpPosition,
 		build: func(w *World, std *Std, who string, id uint64) sdk.Msg {
@@ -911,7 +923,7 @@ func runC17(t *testing.T, seed int64, n int, out *Out) {
 	for i, sc := range c17OwnedTable {
 		sc := sc
 		id := i + 1
-		var objA uint64
+		var objA, objB uint64
 		first := true
 		q := &c17Pair{t: t, seed: seed + int64(id)*7919}
 		q.setup = func(w *World, std *Std) string {
@@ -919,9 +931,16 @@ func runC17(t *testing.T, seed int64, n int, out *Out) {
 			if why != "" {
 				return sc.module + "." + sc.msg + ": " + why
 			}
+			var oidB uint64
+			if sc.batch != nil {
+				// the second account has an object of the same kind of its own (creating one is open to everybody)
+				if oidB, why = sc.create(w, std, w.Accts[2]); why != "" {
+					return sc.module + "." + sc.msg + " (second account): " + why
+				}
+			}
 			if first {
-				objA, first = oid, false
-			} else if oid != objA {
+				objA, objB, first = oid, oidB, false
+			} else if oid != objA || oidB != objB {
 				return "the two worlds created different object ids"
 			}
 			return ""
@@ -940,8 +959,25 @@ func runC17(t *testing.T, seed int64, n int, out *Out) {
 			{"nonowner", q.SA.Feeder, q.SA.Feeder.Addr.String()}, // so does the price feeder
 			{"spoof", other, owner.Addr.String()},                // the owner's address in the field, somebody else's signature
 		}
+		type prb struct {
+			pr
+			ids []uint64
+		}
+		var all []prb
 		for _, x := range probes {
+			all = append(all, prb{x, nil})
+		}
+		if sc.batch != nil && objB != objA {
+			// one message that names an object of the sender's own AND the owner's: it concerns the owner's object, so it is refused whole
+			all = append(all, prb{pr{"nonowner-mixed", other, other.Addr.String()}, []uint64{objB, objA}},
+				prb{pr{"nonowner-mixed", other, other.Addr.String()}, []uint64{objA, objB}})
+		}
+		for _, xx := range all {
+			x := xx.pr
 			msg := sc.build(q.A, q.SA, x.who, objA)
+			if xx.ids != nil {
+				msg = sc.batch(q.A, q.SA, x.who, xx.ids)
+			}
 			vb := c17ValidateBasic(msg)
 			r := q.probe(TxReq{Signer: x.s, Msgs: []sdk.Msg{msg}})
 			out.Line(J{"t": "c17.case", "id": id, "kind": "owner", "module": sc.module, "msg": sc.msg, "url": sdk.MsgTypeURL(msg), "field": sc.field,
